@@ -53,9 +53,23 @@ def _board(bid, owner, declarer, dbl, vul, plays, stats=None):
                                 {k: {'observer': got[k], 'table manager': ref[k]} for k in ks})
             check(ob.contract == b.env.contract, 'observer holds a different contract', b.case({'observer': A.SEATS[o]}))
     agree()
+    k = bid * 4 + declarer
     for i, c in enumerate(cards):
         if len(b.m.trick) == 0 and b.m.turn == b.m.dummy:
             dummy_led = True
+        if (i + k) % 5 == 0:
+            # actions that everybody refuses (out of turn, card of another seat, card already played) are offered to the
+            # table manager and to every replica in between: afterwards the replicas must still follow the table manager
+            # (an observer is only offered what it can recognise: out-of-turn plays, and cards of its own / the faced
+            # dummy's hand - it cannot know that a concealed seat does not hold a card)
+            for o, env in [(None, b.env)] + list(enumerate(b.obs)):
+                for card, seat, what in PL.fault_candidates(b, observer=o)[: 1 + (k + i) % 3]:
+                    try:
+                        env.play_card_by_player(be.CARD[card], be.SEAT[seat])
+                    except Exception:  # noqa  (whether it is refused cleanly is C05's business)
+                        pass
+            if stats is not None:
+                stats.cls('refused actions offered to all replicas in between')
         b.play(c)
         agree()
         if stats is not None:
